@@ -74,6 +74,10 @@ def compare(case, r, m):
 
 
 def run(ctx):
+    run_filler_check(ctx, PID, impl_oracle, "Proofs/FillerProofs.vo")
+
+
+def run_filler_check(ctx, PID, impl_oracle, proof_target, select=False):
     broken = []
     tr = pygen.regenerate(REPO, COQ / "Generated", only=["GenFiller"])
     if tr["GenFiller"]:
@@ -91,7 +95,7 @@ def run(ctx):
     per_fmt = {}
     for fmt in fmts:
         sub = cases if fmt == "fb" else cases[:400]
-        per_fmt[fmt] = (sub, common.run_impl("filler_run.py", {"cases": sub, "format": fmt}, timeout=3000)["results"])
+        per_fmt[fmt] = (sub, common.run_impl("filler_run.py", {"cases": sub, "format": fmt, "select": select}, timeout=3000)["results"])
     # 1. property oracle on the implementation
     found = 0
     for fmt, (sub, rs) in per_fmt.items():
@@ -131,9 +135,10 @@ def run(ctx):
     for c in cases[11:15]:
         ctx.sample(c)
     ctx.coverage.update({
-        "obligations": proof["obligations"] if proof else 3, "discharged": proof["discharged"] if proof else 0,
+        "obligations": proof["obligations"] if proof else 3,
+        "proof_target": proof_target, "discharged": proof["discharged"] if proof else 0,
         "theorems": proof["theorems"] if proof else [],
-        "checker_cmd": "make -C coq Proofs/FillerProofs.vo && coqc -Q coq Sedpack coq/Properties/C10.v (Print Assumptions under each theorem)",
+        "checker_cmd": f"make -C coq {proof_target} && coqc -Q coq Sedpack coq/Properties/{PID}.v (Print Assumptions under each theorem)",
         "trusted_base": common.TRUSTED_BASE_COMMON + [
             "modelled, not verified: Shard/ShardWriter (accept/reject of a write is an input of the model), pydantic, uuid4 freshness"],
         "evaluations": sum(len(s) for s, _ in per_fmt.values()),
